@@ -22,7 +22,7 @@ open Iso C06I
 the next node) maps exactly the pattern nodes, each once, is an induced colour-respecting subgraph
 isomorphism, is (listed along the pattern nodes) a member of the verified reference `allIsos`, and
 obeys the constraints as far as the search enforces them (`Enforced`). -/
-theorem ismags_find_sound {pick : Cands → List Int → Int} (hpick : PickOK pick) (edgeNone : Bool)
+theorem ismags_find_sound {pick : Map → Cands → List Int → Int} (hpick : PickOK pick) (edgeNone : Bool)
     (g sg : Graph) (C : Constraints) (hs : sg.keys.Nodup) (m : Map)
     (h : m ∈ findIsomorphismsWith pick edgeNone g sg C) :
     (m.map Prod.fst).Perm sg.keys
@@ -44,7 +44,7 @@ theorem ismags_find_sound {pick : Cands → List Int → Int} (hpick : PickOK pi
         · dsimp only at h
           split at h
           · have hinv := sInv_set_intersect (sInv_initial edgeNone g sg C sg.keys (fun _ h => h))
-              (pick (initialCands edgeNone g sg) ((initialCands edgeNone g sg).map Prod.fst))
+              (pick [] (initialCands edgeNone g sg) ((initialCands edgeNone g sg).map Prod.fst))
             obtain ⟨h1, h2, _, h4⟩ := mapNodes_sound hpick g sg C sg.keys _ _ _ [] hinv (mapOK_nil g sg C)
               (by simp) (by simp) m h
             exact ⟨h2, h4, h1⟩
@@ -67,7 +67,7 @@ theorem ismags_find_sound_min (edgeNone : Bool) (g sg : Graph) (C : Constraints)
   exact ⟨h1, h2, h3, fun ha => enforced_satisfies ha h4⟩
 
 /-- `_map_nodes` itself, from any state satisfying the invariant of the candidate table. -/
-theorem ismags_mapNodes_sound {pick : Cands → List Int → Int} (hpick : PickOK pick) (g sg : Graph)
+theorem ismags_mapNodes_sound {pick : Map → Cands → List Int → Int} (hpick : PickOK pick) (g sg : Graph)
     (C : Constraints) (tbm : List Int) (fuel : Nat) (sgn : Int) (cands : Cands) (mapping : Map)
     (hinv : SInv g sg C cands mapping tbm) (hok : MapOK g sg C mapping)
     (hsgn : sgn ∉ mapping.map Prod.fst) (hnd : (mapping.map Prod.fst).Nodup)
@@ -86,7 +86,7 @@ ordered pair of distinct pattern nodes the demand `cOK` of `_map_nodes` holds; s
 `ismags_find_exact` for the reading "every listed constraint holds").  Uses that the look-ahead
 candidates, the node-colour candidates and every set added by `_map_nodes` contain the image of
 every solution.  `noSelfLoops sg`: the pattern is a simple graph. -/
-theorem ismags_find_complete {pick : Cands → List Int → Int} (hpick : PickOK pick) (edgeNone : Bool)
+theorem ismags_find_complete {pick : Map → Cands → List Int → Int} (hpick : PickOK pick) (edgeNone : Bool)
     (g sg : Graph) (C : Constraints) (hs : sg.keys.Nodup) (hloop : noSelfLoops sg = true)
     (F : Int → Int) (hF : IsIndIso g sg F)
     (hC : ∀ a ∈ sg.keys, ∀ b ∈ sg.keys, a ≠ b → cOK C a (F a) b (F b) = true) :
@@ -117,8 +117,8 @@ theorem ismags_find_complete {pick : Cands → List Int → Int} (hpick : PickOK
         simp at this; omega
       · dsimp only
         rw [if_pos (initialCands_any edgeNone g sg hne)]
-        have hstart : pick (initialCands edgeNone g sg) ((initialCands edgeNone g sg).map Prod.fst) ∈ sg.keys := by
-          have := hpick (initialCands edgeNone g sg) ((initialCands edgeNone g sg).map Prod.fst)
+        have hstart : pick [] (initialCands edgeNone g sg) ((initialCands edgeNone g sg).map Prod.fst) ∈ sg.keys := by
+          have := hpick [] (initialCands edgeNone g sg) ((initialCands edgeNone g sg).map Prod.fst)
             (by rw [initialCands_keys]; exact hne)
           rw [initialCands_keys] at this ⊢
           exact this
@@ -126,7 +126,7 @@ theorem ismags_find_complete {pick : Cands → List Int → Int} (hpick : PickOK
           (cInv_set_intersect (cInv_initial edgeNone hs hloop hF) _) hstart (by simp) (by simp) (by simp)
 
 /-- **... exactly once**: two yielded mappings differ on some pattern node. -/
-theorem ismags_find_distinct {pick : Cands → List Int → Int} (hpick : PickOK pick) (edgeNone : Bool)
+theorem ismags_find_distinct {pick : Map → Cands → List Int → Int} (hpick : PickOK pick) (edgeNone : Bool)
     (g sg : Graph) (C : Constraints) (hg : g.keys.Nodup) :
     (findIsomorphismsWith pick edgeNone g sg C).Pairwise (Differ sg.keys) := by
   unfold findIsomorphismsWith
@@ -150,7 +150,7 @@ theorem toFun_mapOf {S : List Int} (f : Int → Int) {u : Int} (hu : u ∈ S) : 
 a pair constrained in both directions: listed along the pattern nodes, the yielded mappings are
 exactly the members of the reference `allIsos` that satisfy every constraint `m low < m high`, and
 none is yielded twice - independently of the rule for the next node. -/
-theorem ismags_find_exact {pick : Cands → List Int → Int} (hpick : PickOK pick) (edgeNone : Bool)
+theorem ismags_find_exact {pick : Map → Cands → List Int → Int} (hpick : PickOK pick) (edgeNone : Bool)
     (g sg : Graph) (C : Constraints) (hs : sg.keys.Nodup) (hg : g.keys.Nodup) (hloop : noSelfLoops sg = true)
     (ha : antisymB C = true) :
     (∀ m', m' ∈ (findIsomorphismsWith pick edgeNone g sg C).map (fun m => mapOf sg.keys (Map.toFun m))
@@ -190,7 +190,7 @@ theorem ismags_find_exact {pick : Cands → List Int → Int} (hpick : PickOK pi
 /-- **Symmetry off** (`constraints = []`): the transcribed `find_isomorphisms` yields every induced
 subgraph isomorphism exactly once: its output, listed along the pattern nodes, is a permutation of
 the verified reference `allIsos`, whatever the rule for the next node. -/
-theorem ismags_find_all {pick : Cands → List Int → Int} (hpick : PickOK pick) (edgeNone : Bool)
+theorem ismags_find_all {pick : Map → Cands → List Int → Int} (hpick : PickOK pick) (edgeNone : Bool)
     (g sg : Graph) (hs : sg.keys.Nodup) (hg : g.keys.Nodup) (hloop : noSelfLoops sg = true) :
     ((findIsomorphismsWith pick edgeNone g sg []).map (fun m => mapOf sg.keys (Map.toFun m))).Perm (allIsos g sg) := by
   obtain ⟨h1, h2⟩ := ismags_find_exact hpick edgeNone g sg [] hs hg hloop (by rfl)
